@@ -348,6 +348,11 @@ fn run_one(plan: &Plan, sched: &[(i64, String)], path: &std::path::Path, random:
     let mut probed: HashSet<i64> = HashSet::new();
     loop {
         crate::tick();
+        // a thread that stays blocked where the model lets it proceed has been waited for (2 s each
+        // time): two such observations decide this schedule; the rest would only repeat the wait
+        if blocked_notes.len() >= 2 {
+            break;
+        }
         // next thread to step
         let tid = if let Some(r) = rng.as_mut() {
             let g = c.st.lock().unwrap();
@@ -578,7 +583,7 @@ pub fn sched_run(a: &Args) -> i32 {
     let path = dir.join("sched.db");
     let mut w = std::io::BufWriter::new(std::fs::File::create(&out).unwrap());
     let mut runs = 0u64;
-    let mut bad = 0u64;
+    let bad = std::cell::Cell::new(0u64);
     let mut sample: Vec<Value> = Vec::new();
     let trace_out = a.s("trace-out", "");
     if !trace_out.is_empty() {
@@ -592,7 +597,7 @@ pub fn sched_run(a: &Args) -> i32 {
             sample.push(json!(log));
         }
         if !problems.is_empty() {
-            bad += 1;
+            bad.set(bad.get() + 1);
             let deadlock = problems.iter().any(|p| p.starts_with("deadlock"));
             writeln!(w, "{}", json!({"idx": idx, "random": random, "problems": problems, "log": log,
                                       "sched": sched.iter().map(|(t, n)| json!([t, n])).collect::<Vec<_>>()}))
@@ -606,6 +611,8 @@ pub fn sched_run(a: &Args) -> i32 {
         true
     };
     let mut alive = true;
+    // a verdict needs examples, not every failing schedule: stop after this many
+    let max_bad = a.n("max-bad", 8) as u64;
     if a.has("schedules") {
         let all: Value = serde_json::from_str(&std::fs::read_to_string(a.s("schedules", "")).unwrap()).unwrap();
         for (idx, b) in all.as_array().unwrap().iter().enumerate() {
@@ -622,6 +629,9 @@ pub fn sched_run(a: &Args) -> i32 {
                 alive = false;
                 break;
             }
+            if bad.get() >= max_bad {
+                break;
+            }
         }
     }
     if alive && a.has("random") {
@@ -629,6 +639,9 @@ pub fn sched_run(a: &Args) -> i32 {
         for i in 0..a.n("random", 0) as usize {
             if i < skip && !a.has("schedules") {
                 continue;
+            }
+            if bad.get() >= max_bad {
+                break;
             }
             if !do_run(1_000_000 + i, &[], Some(seed.wrapping_mul(7919).wrapping_add(i as u64)), &mut w) {
                 alive = false;
@@ -645,7 +658,7 @@ pub fn sched_run(a: &Args) -> i32 {
             tw.flush().unwrap();
         }
     }
-    writeln!(w, "{}", json!({"summary": true, "runs": runs, "bad": bad, "sample": sample, "alive": alive})).unwrap();
+    writeln!(w, "{}", json!({"summary": true, "runs": runs, "bad": bad.get(), "sample": sample, "alive": alive})).unwrap();
     w.flush().unwrap();
     let _ = std::fs::remove_file(&progress);
     if alive {
